@@ -3,7 +3,7 @@
 //! under the control of the generated case.
 //!
 //! "Connection refused" is produced without ever giving the port away: every
-//! slot keeps a bound, non-listening socket (SO_REUSEPORT) for the whole case,
+//! slot keeps a bound, non-listening socket (SO_REUSEPORT, no SO_REUSEADDR) for the whole case,
 //! and a second socket on the same port listens only while the behaviour is
 //! not `Refuse`.  A SYN to a port without a listening socket is answered with
 //! RST, and no other process can be handed the port in between.
@@ -286,7 +286,9 @@ pub struct Slot {
 
 fn sock() -> std::io::Result<TcpSocket> {
     let s = TcpSocket::new_v4()?;
-    s.set_reuseaddr(true)?;
+    // SO_REUSEPORT only. With SO_REUSEADDR as well, any other process that binds the port
+    // explicitly with SO_REUSEADDR (tokio's TcpListener::bind does) could listen on a
+    // "refusing" port next to the non-listening reservation.
     s.set_reuseport(true)?;
     Ok(s)
 }
